@@ -1,9 +1,125 @@
-(* C13 - write_csv followed by read_csv reproduces the WBS (statement file, preliminary). *)
-From PJ Require Import Base.Prelude Csv.CsvModel Csv.CsvCodecProofs Csv.Fields Csv.FieldsProofs gen.Consts.
-Open Scope N_scope.
+(* C13 - write_csv followed by read_csv reproduces the WBS (statement file).
+   Model: Csv/CsvModel.v (Python's csv writer / reader for the dialect of csv_io.py), Csv/Fields.v (cell
+   codecs), Csv/Wbs.v (tasks_to_raws, raws_to_wbs, write_csv, read_csv after the repairs C13-1..3);
+   constants (header, date format, delimiters, reserved names) from gen/Consts.v.
+   Domain: WbsProofs.wbs_ok = every task expressible in the layout (WbsSpec.raw_ok: dates in 1969-2068,
+   attribute names distinct / public / not a column or Task name / without U+FEFF) and WbsSpec.graph_ok
+   (ids unique, dependencies inside the WBS and without repetitions, no negative amount); its boolean
+   form WbsSpec.wbs_ok_b (sound: RoundTrip.wbs_ok_b_sound) is evaluated on the generated cases.
+   Floats: WbsSpec.float_codec_ok (float(str x) = x, str x not empty) is a hypothesis, evaluated by the
+   harness on every amount of every case. *)
+From PJ Require Import Base.Prelude Csv.CsvModel Csv.CsvCodecProofs Csv.Fields Csv.FieldsProofs
+  Csv.Wbs Csv.WbsSpec Csv.RowsProofs Csv.AssembleProofs Csv.WbsProofs Csv.RoundTrip gen.Consts.
+Open Scope Z_scope.
 
+(* the csv layer: what the reader makes of what the writer wrote, for rows of arbitrary text
+   (delimiter, quotes, CR, LF, empty rows and empty cells included) and any sensible delimiter *)
 Theorem C13_codec : forall (d : N) (rows : list row),
   d <> QUOTE -> d <> CR -> d <> LF -> parse_csv d (print_csv d rows) = Parsed rows.
 Proof. exact parse_print_csv. Qed.
 
+(* the cells: every id (all of Z: 0 and negatives included), optional parent id, every day of
+   1969-01-01 .. 2068-12-31 (date_lo = -365, date_hi = 36160; finite sweep) in the format of the code and
+   in the format of the min_start column, booleans, predecessor lists, amounts under the float hypothesis,
+   text with None read back for the empty text *)
+Theorem C13_fields : forall (F : Type) (repr_float : F -> text) (parse_float : text -> option F),
+  float_codec_ok repr_float parse_float ->
+  (forall z : Z, parse_int (print_int z) = Some z)
+  /\ (forall o : option Z, opt_parse parse_int (opt_cell print_int o) = Ok o)
+  /\ (forall d, date_lo <= d < date_hi -> parse_date date_items (format_date date_items d) = Some d)
+  /\ (forall d, date_lo <= d < date_hi -> parse_date iso_date_items (format_date iso_date_items d) = Some d)
+  /\ (civil_of_days date_lo = (1969, 1, 1) /\ civil_of_days (date_hi - 1) = (2068, 12, 31) /\ date_hi - date_lo = 36525)
+  /\ (forall o, date_ok o -> opt_parse (parse_date date_items) (opt_cell (format_date date_items) o) = Ok o)
+  /\ (forall o, date_ok o -> opt_parse (parse_date iso_date_items) (opt_cell (format_date iso_date_items) o) = Ok o)
+  /\ (forall b : bool, parse_bool csv_bool_true (print_bool b) = b)
+  /\ (forall l : list Z, parse_preds (hd 0%N csv_pred_sep_read) (print_preds (hd 0%N csv_pred_sep_write) l) = Some l)
+  /\ (forall o : option F, opt_parse parse_float (opt_cell repr_float o) = Ok o)
+  /\ (forall o : option text, text_equiv (parse_opt_text (print_opt_text o)) o)
+  /\ (forall t : text, print_opt_text (parse_opt_text t) = t).
+Proof. exact (@fields_roundtrip). Qed.
+
+(* tasks_to_raws then raws_to_wbs: the forest is rebuilt exactly (ids in order, hierarchy, sibling order,
+   predecessor lists, every field incl. min_start and the custom attributes) *)
+Theorem C13_rebuild : forall (F : Type) (f_neg : F -> bool) (w : wbs F),
+  wbs_ok f_neg w -> assemble F f_neg (flatten F w) = Ok w.
+Proof. exact (@rebuild). Qed.
+
+(* the rows: the TaskRaws written as cells under the header and read back are the normalised TaskRaws *)
+Theorem C13_rows : forall (F : Type) (repr_float : F -> text) (parse_float : text -> option F),
+  (forall x, parse_float (repr_float x) = Some x) -> (forall x, repr_float x <> []) ->
+  forall raws : list (raw F), Forall raw_ok raws ->
+  let cols := custom_columns F raws in
+  rows_to_raws F parse_float (csv_default_fields ++ cols) (map (raw_to_row F repr_float cols) raws)
+  = Ok (map (norm_raw cols) raws).
+Proof. exact (@rows_to_raws_to_rows). Qed.
+
+(* what the equivalence of the property says, on the task list: same ids in the same order with the same
+   parent and the same predecessor ids, equivalent fields (None ~ "" for texts, custom attributes by the
+   text of their values) - and the task list determines the forest (C13_rebuild) *)
+Theorem C13_equiv_meaning : forall (F : Type) (a b : wbs F),
+  wbs_equiv a b -> Forall2 raw_equiv (flatten_plain a) (flatten_plain b).
+Proof. exact (@wbs_equiv_flat). Qed.
+
+(* the composition: read_csv (write_csv w) returns a WBS equivalent to w, for every w of the domain *)
+Theorem C13_roundtrip : forall (F : Type) (repr_float : F -> text) (parse_float : text -> option F) (f_neg : F -> bool),
+  float_codec_ok repr_float parse_float ->
+  forall w : wbs F, wbs_ok f_neg w ->
+  exists w1, read_model F parse_float f_neg delim (write_model F repr_float delim w) = Some (Ok w1)
+             /\ wbs_equiv w1 w /\ Forall2 raw_equiv (flatten_plain w1) (flatten_plain w).
+Proof. exact (@roundtrip_statement_proved). Qed.
+
+(* one round trip is a fixpoint: the re-read WBS is read back exactly from its own file, so a further
+   read/write cycle reproduces that file byte for byte *)
+Theorem C13_fix : forall (F : Type) (repr_float : F -> text) (parse_float : text -> option F) (f_neg : F -> bool),
+  float_codec_ok repr_float parse_float ->
+  forall w : wbs F, wbs_ok f_neg w ->
+  forall w1, read_model F parse_float f_neg delim (write_model F repr_float delim w) = Some (Ok w1) ->
+  read_model F parse_float f_neg delim (write_model F repr_float delim w1) = Some (Ok w1)
+  /\ (forall w2, read_model F parse_float f_neg delim (write_model F repr_float delim w1) = Some (Ok w2) ->
+                 write_model F repr_float delim w2 = write_model F repr_float delim w1).
+Proof. exact (@fixpoint_statement_proved). Qed.
+
+(* a byte-order mark in front of a written file changes nothing (any WBS, no hypothesis) *)
+Theorem C13_bom : forall (F : Type) (repr_float : F -> text) (parse_float : text -> option F) (f_neg : F -> bool) (w : wbs F),
+  read_model F parse_float f_neg delim (BOM :: write_model F repr_float delim w)
+  = read_model F parse_float f_neg delim (write_model F repr_float delim w).
+Proof. exact (@read_bom_write_model). Qed.
+
+(* a file written by hand or by another program: whatever its line ends and quoting, if Python's csv reader
+   splits it into the rows of the layout, with or without U+FEFF in front of the first header cell, it loads
+   with the meaning of w (rows or columns in another order: covered by the harness only) *)
+Theorem C13_handwritten : forall (F : Type) (repr_float : F -> text) (parse_float : text -> option F) (f_neg : F -> bool),
+  float_codec_ok repr_float parse_float ->
+  forall w : wbs F, wbs_ok f_neg w ->
+  forall s, parse_csv delim s = Parsed (to_rows F repr_float (flatten F w))
+            \/ parse_csv delim s = Parsed (with_bom (to_rows F repr_float (flatten F w))) ->
+  exists w1, read_model F parse_float f_neg delim s = Some (Ok w1) /\ wbs_equiv w1 w.
+Proof. exact (@handwritten_statement_proved). Qed.
+
+(* non-vacuity: a WBS of the domain with a hierarchy under a task with id 0, a name containing the
+   delimiter, a quote and a line break, an attribute only some tasks carry, min_start, dependencies; the float
+   hypothesis holds for integer amounts printed in decimal; the model computes the round trip on it *)
+Example C13_domain_inhabited :
+  wbs_ok ex_neg ex_wbs /\ float_codec_ok print_int parse_int
+  /\ read_model Z parse_int ex_neg delim (write_model Z print_int delim ex_wbs) = Some (Ok (normalize Z ex_wbs))
+  /\ normalize Z ex_wbs <> ex_wbs.
+Proof. exact (conj ex_wbs_ok (conj (conj ex_float_roundtrip ex_float_nonempty) ex_wbs_computed)). Qed.
+
+(* non-vacuity of C13_handwritten: the file of that WBS with LF line ends, and with U+FEFF in front *)
+Example C13_handwritten_inhabited :
+  ex_lf_file <> write_model Z print_int delim ex_wbs
+  /\ parse_csv delim ex_lf_file = Parsed (to_rows Z print_int (flatten Z ex_wbs))
+  /\ parse_csv delim (BOM :: ex_lf_file) = Parsed (with_bom (to_rows Z print_int (flatten Z ex_wbs))).
+Proof. exact ex_lf_file_rows. Qed.
+
 Print Assumptions C13_codec.
+Print Assumptions C13_fields.
+Print Assumptions C13_rebuild.
+Print Assumptions C13_rows.
+Print Assumptions C13_equiv_meaning.
+Print Assumptions C13_roundtrip.
+Print Assumptions C13_fix.
+Print Assumptions C13_bom.
+Print Assumptions C13_handwritten.
+Print Assumptions C13_domain_inhabited.
+Print Assumptions C13_handwritten_inhabited.
